@@ -11,7 +11,7 @@ from .. import explore as E
 from ..core import Partial, Report, pmap, seed_from_env
 from ..oracles import routing as O
 from ..routing import SPECS
-from ..rtree import explore_instance, solo_validate, trace_replay_record, unit_instances, units
+from ..rtree import sig, explore_instance, solo_validate, trace_replay_record, unit_instances, units
 
 PID = "C01"
 
@@ -36,7 +36,7 @@ def unit(item):
             if not v.may:
                 trig = v.hard[0].split(":")[0]
                 p.violation(
-                    dict(property=PID, env=spec.key, observable="infeasible_solution", trigger=trig),
+                    sig(PID, spec, "infeasible_solution", trig),
                     trace_replay_record(spec, iid, inst, h, oracle=repr(v)),
                     f"{spec.key} instance {iid}: mask-admitted episode {list(h)} is infeasible: {v.hard}",
                 )
